@@ -154,3 +154,39 @@ def confirm(rep, op, key, what):
             cand = [f for f in fields if f.replace("_", "") == snake(name).replace("_", "")]
             return not cand or not field_shows(dbg, cand[0], probe)
     return False
+
+
+def proxy_payload_witnesses(rep):
+    """bodies and XML payloads through the proxy configuration: the typed input (and the streamed bytes) the second adapter's backend
+    receives equal what the first adapter's backend would receive directly.  The SDK client inside the proxy adds a checksum algorithm
+    to operations that require one; that member is not compared.  -> (number of cases, deviations)"""
+    def rq(method, uri, body, extra=()):
+        b = body.encode()
+        return {"method": method, "uri": uri, "headers": [["host", "localhost"], ["content-length", str(len(b))]] + [list(x) for x in extra], "body": b.hex()}
+    cases = [
+        ("PutObject", rq("PUT", "/bkt/key", "hello world \r\n\x00 bytes", [("x-amz-meta-color", "blue"), ("content-type", "text/plain; charset=utf-8")])),
+        ("PutBucketTagging", rq("PUT", "/bkt?tagging", "<Tagging><TagSet><Tag><Key> k 1</Key><Value>v&amp;&lt;2 </Value></Tag></TagSet></Tagging>")),
+        ("DeleteObjects", rq("POST", "/bkt?delete", "<Delete><Object><Key>a b</Key></Object><Object><Key>c/d</Key><VersionId>v1</VersionId></Object>"
+                                                     "<Quiet>true</Quiet></Delete>")),
+        ("CompleteMultipartUpload", rq("POST", "/bkt/key?uploadId=u1", "<CompleteMultipartUpload><Part><ETag>\"e1\"</ETag><PartNumber>1</PartNumber></Part>"
+                                                                         "<Part><ETag>\"e2\"</ETag><PartNumber>2</PartNumber></Part></CompleteMultipartUpload>")),
+        ("PutObjectTagging", rq("PUT", "/bkt/key?tagging", "<Tagging><TagSet><Tag><Key>a</Key><Value></Value></Tag><Tag><Key>b</Key><Value>x</Value></Tag></TagSet></Tagging>")),
+    ]
+    scs = []
+    for _, r in cases:
+        scs.append({"config": {}, "request": r})
+        scs.append({"config": {"proxy": True}, "request": r})
+    outs = replay.run_scenarios(scs)
+    bad = []
+
+    def view(o):
+        evs = [e for e in o.get("events", []) if e["ev"].startswith(("s3.", "body."))]
+        return [(e["ev"], re.sub(r'checksum_algorithm: ChecksumAlgorithm\("[A-Z0-9]+"\), ', "", str(e.get("input") or e.get("body") or ""))) for e in evs]
+    for i, (name, _) in enumerate(cases):
+        d, p_ = view(outs[2 * i]), view(outs[2 * i + 1])
+        if not d:
+            bad.append((name, "the direct request does not reach the backend (status %s)" % outs[2 * i].get("status")))
+        elif d != p_:
+            bad.append((name, "directly the backend receives %s, through the proxy %s (status %s)" % (d, p_, outs[2 * i + 1].get("status"))))
+    rep.traces_validated += len(scs)
+    return len(cases), bad
